@@ -15,7 +15,7 @@ fi
 cp /verif/known_findings.json $out/
 log=$out/log.txt
 for id in $(python3 -c "import json; print(' '.join(c['property_id'] for c in json.load(open('/verif/MANIFEST.json'))['checks']))"); do
-  o=$(/verif/bin/dblint check -property $id -repo $tmp -verif $out 2>&1); c=$?
+  o=$(${DBLINT:-/verif/bin/dblint} check -property $id -repo $tmp -verif $out 2>&1); c=$?
   echo "--- $id exit=$c" >> $log
   echo "$o" | grep -E '^(VIOLATED|UNDECIDED|ANALYSIS-ERROR)' >> $log
 done
